@@ -51,11 +51,10 @@ def is_test(f):
     return '/tests' in f.file or '::tests::' in f.nice or f.file.endswith('tests.rs')
 
 
-def run(ctx):
+def key_builder_rule(ctx, rid='C02.R1'):
     prog = ctx.prog
-
     # ------------------------------------------------------------------ R1 maintenance key builders
-    ctx.rule('C02.R1', 'each key handed to BTreeMap<Vec<SqlValue>,_>::{entry,get,get_mut,remove,insert,contains_key} on IndexData::InMemory.data '
+    ctx.rule(rid, 'each key handed to BTreeMap<Vec<SqlValue>,_>::{entry,get,get_mut,remove,insert,contains_key} on IndexData::InMemory.data '
              'or to BTreeIndex::{insert,delete,delete_specific,lookup,bulk_load} inside database::indexes::{index_maintenance,index_manager} '
              'is collected from a closure returning normalize_for_comparison(apply_prefix_truncation(row value, column.prefix_length))')
     builders = {}
@@ -100,22 +99,29 @@ def run(ctx):
                 ret = cs.local(0)
                 shapes.append((c, ret))
                 builders[c.path] = (c, ret)
-            ctx.instance(f'R1/{site}', {'rule': 'C02.R1', 'fn': f.nice, 'loc': f'{f.file}:{t["l"]}', 'sink': op,
+            ctx.instance(f'{rid.split(".")[-1]}/{site}', {'rule': rid, 'fn': f.nice, 'loc': f'{f.file}:{t["l"]}', 'sink': op,
                                         'key': ks[:160], 'builders': [r[:120] for _, r in shapes]})
             if not shapes and f.nice in SINK_EXC:
-                ctx.exempt(f'R1/{f.nice}/{op}', SINK_EXC[f.nice])
+                ctx.exempt(f'{rid.split(".")[-1]}/{f.nice}/{op}', SINK_EXC[f.nice])
                 continue
             if not shapes and 'closure' in ks:
-                ctx.finding(f'R1/{f.nice}/{op}/no-builder', f'{f.nice}: key for {op} is not built by a recognisable key-builder closure', f'{f.file}:{t["l"]}')
-    ctx.floor('C02.R1 index key sinks on the maintenance side', nsinks, 14)
-    ctx.floor("C02.R1 key-builder closures", len(builders), 9)
+                ctx.finding(f'{rid.split(".")[-1]}/{f.nice}/{op}/no-builder', f'{f.nice}: key for {op} is not built by a recognisable key-builder closure', f'{f.file}:{t["l"]}')
+    ctx.floor(f'{rid} index key sinks on the maintenance side', nsinks, 14)
+    ctx.floor(f"{rid} key-builder closures", len(builders), 9)
     for cp, (c, ret) in sorted(builders.items()):
         ok = re.match(r'^normalize_for_comparison\(apply_prefix_truncation\(.+, [A-Za-z_0-9.@]*prefix_length\)\)$', ret)
-        ctx.instance(f'R1/builder/{c.nice}', {'rule': 'C02.R1', 'closure': c.nice, 'returns': ret[:200]})
+        ctx.instance(f'{rid.split(".")[-1]}/builder/{c.nice}', {'rule': rid, 'closure': c.nice, 'returns': ret[:200]})
         if not ok:
-            ctx.finding(f'R1/builder/{c.nice}', f'{c.nice}: the index key element is `{ret[:160]}` — not normalize_for_comparison('
+            ctx.finding(f'{rid.split(".")[-1]}/builder/{c.nice}', f'{c.nice}: the index key element is `{ret[:160]}` — not normalize_for_comparison('
                         'apply_prefix_truncation(value, column.prefix_length)) like the other maintenance sites: rows filed by this path are '
                         'not found (or found twice) by the others', c.loc)
+
+
+
+def run(ctx):
+    prog = ctx.prog
+
+    key_builder_rule(ctx, 'C02.R1')
 
     # ------------------------------------------------------------------ R2 probe normalisation
     ctx.rule('C02.R2', 'IndexData::range_scan and IndexData::multi_lookup: normalize_for_comparison precedes every probe of the index '
